@@ -2985,6 +2985,10 @@ def merge_dequant_lut_quant(op, arch, nng=None):
     if pre_op.type != Op.Dequantize:
         return op
 
+    # The merged operator is converted to a LUT (convert_ops_to_lut), which is only possible for int8 and int16
+    if pre_op.ifm.dtype not in (DataType.int8, DataType.int16):
+        return op
+
     lut_op.set_input_tensor(pre_op.inputs[0], 0)
     lut_op.set_output_tensor(post_op.outputs[0])
 
